@@ -159,7 +159,7 @@ func oneRun(seed uint64, prop, tier string, env *Env, known *KnownFindings, scra
 	var s *Script
 	defer func() {
 		if r := recover(); r != nil {
-			rr.Err = fmt.Sprintf("harness panic: %v", r)
+			rr.Err = fmt.Sprintf("harness panic: %v [%s]", r, shortStack())
 			if s != nil {
 				p := filepath.Join(scratch, fmt.Sprintf("harness-panic-%s-%d.json", prop, seed))
 				bz, _ := json.Marshal(s)
